@@ -54,7 +54,6 @@ def exhaustive(iw, res, pre, ops, depth, lines_out, impl_out, tag):
     n = 0
     for d in range(1, depth + 1):
         for combo in itertools.product(ops, repeat=d):
-            iw.reset()
             hist_lines = ['reset']
             ok = True
             for l in pre:
@@ -64,7 +63,7 @@ def exhaustive(iw, res, pre, ops, depth, lines_out, impl_out, tag):
                 if not handles_ok(l, iw.held):
                     ok = False
                     break
-                o = hist.run_checked(iw, [l, 'names'], res, 'C01', check_domains=True)
+                o = hist.run_checked(iw, [l, 'names'], res, 'C01', check_domains=True, prefix=hist_lines)
                 hist_lines += [l, 'names']
                 outs += o
             if not ok:
@@ -80,7 +79,6 @@ def exhaustive(iw, res, pre, ops, depth, lines_out, impl_out, tag):
 
 def random_history(iw, rng, length):
     """state-aware random history over all five kinds and the four classes per kind"""
-    iw.reset()
     lines, outs = ['reset'], ['ok']
     kinds = {}          # handle -> kind
     names = ['a', 'a*', 'b', 'b*', 'x1', 'd1', 'd2', 'c1', 'c2', 'X', 'Y', 'S', 'A']
@@ -146,9 +144,10 @@ def run(res, proof):
     for _ in range(nrand):
         L = rng.randint(5, 40)
         g = random_history(iw, rng, L)
+        iw.reset()
         hl, ho = ['reset'], ['ok']
         for l, kind, kinds in g:
-            o = hist.run_checked(iw, [l], res, 'C01', check_domains=True)[0]
+            o = hist.run_checked(iw, [l], res, 'C01', check_domains=True, prefix=hl)[0]
             if o.startswith('ret h') and o.split(' ')[2] == 'new':
                 kinds[int(o.split(' ')[1][1:])] = kind
             hl.append(l); ho.append(o)
